@@ -38,6 +38,14 @@ func (timeoutErr) Temporary() bool { return true }
 
 var errNet = errors.New("verif: connection reset")
 
+// tempErr is another "other transport error": a net.Error that calls itself temporary but is not a timeout (a DNS
+// SERVFAIL, EMFILE while dialling). Like errNet it is not retryable.
+type tempErr struct{}
+
+func (tempErr) Error() string   { return "verif: temporary failure in name resolution" }
+func (tempErr) Timeout() bool   { return false }
+func (tempErr) Temporary() bool { return true }
+
 var payload = []byte("the-complete-original-request-body-0123456789")
 
 const (
@@ -58,6 +66,7 @@ type attemptRec struct {
 type server struct {
 	mu       sync.Mutex
 	script   []string
+	temp     bool // "neterr" answers are tempErr instead of errNet
 	n        int
 	t0       time.Time
 	attempts []attemptRec
@@ -106,6 +115,9 @@ func (s *server) RoundTrip(req *http.Request) (*http.Response, error) {
 	case "timeout":
 		return nil, timeoutErr{}
 	case "neterr":
+		if s.temp {
+			return nil, tempErr{}
+		}
 		return nil, errNet
 	}
 	h := http.Header{}
@@ -150,7 +162,7 @@ func outcome(resp *http.Response, err error) string {
 			return "ctx"
 		case errors.As(err, new(timeoutErr)):
 			return "timeout"
-		case errors.Is(err, errNet):
+		case errors.Is(err, errNet), errors.As(err, new(tempErr)):
 			return "neterr"
 		}
 		return "err:" + err.Error()
@@ -197,7 +209,7 @@ func TestDrive(t *testing.T) {
 		synctest.Test(t, func(t *testing.T) {
 			ctx, cancel := context.WithCancel(context.Background())
 			defer cancel()
-			srv := &server{script: c.Script, t0: time.Now()}
+			srv := &server{script: c.Script, t0: time.Now(), temp: (len(c.Script)+c.MaxRetry+len(c.Body))%2 == 0}
 			var cancelT int64 = -1
 			cancelled := false
 			if c.Cancel > 0 {
